@@ -62,7 +62,9 @@ func histExec(c core.Case) core.Case {
 		objs[i] = &histObj{m: NewObj(name, dyn)}
 	}
 	var obs []any
-	for _, st := range core.List(c["steps"]) {
+	lastonly := core.Bool(c["lastonly"])
+	steps := core.List(c["steps"])
+	for si, st := range steps {
 		s := core.Map(st)
 		o := objs[core.Int(s["o"])]
 		var o2 *histObj
@@ -201,12 +203,18 @@ func histExec(c core.Case) core.Case {
 		default:
 			panic("harness: unknown hist op " + op)
 		}
-		ps := make([]any, len(objs))
-		for i, x := range objs {
-			if x.dirty {
-				ps[i] = dirtyMarker
-			} else {
-				ps[i] = Project(x.m)
+		// Projecting reads every field and thereby decodes lazily deferred submessages.  With
+		// "lastonly" the objects are projected only after the final step, so that the steps in
+		// between operate on still-deferred state (C17, C04).
+		ps := []any{}
+		if !lastonly || si == len(steps)-1 {
+			ps = make([]any, len(objs))
+			for i, x := range objs {
+				if x.dirty {
+					ps[i] = dirtyMarker
+				} else {
+					ps[i] = Project(x.m)
+				}
 			}
 		}
 		obs = append(obs, map[string]any{"objs": ps, "r": r})
